@@ -340,6 +340,7 @@ func checkC20(c *hx.Ctx) {
 	c.Floor("version_boundary_scenarios", 8)
 	c.Floor("version_boundary_scenarios_with_old_version_operation_behind_new_one", 4)
 	c.Floor("runs:two-versions", 10)
+	c.Floor("creates_with_suffix_data_type", 20)
 	c.Floor("runs:observer_reads_from_alternate_source", 5)
 	c.Floor("updates_whose_last_patch_fails", 5)
 	c.Floor("runs:version_named_by_ledger_time", 10)
@@ -435,7 +436,12 @@ func runPipeline(c *hx.Ctx, r *hx.Rng, ri int, twoVers, useUnpub, concurrent boo
 				patches = append(patchesFor(rr, ids, enabled), patchAddKeys(genKeyEntry(rr, "firstKey")))
 			}
 			var d *CDid
-			d, b, err = NewCDid(rr.Split("did"), ref.SHA256, []string{ref.KeyTypes[(ri+di)%5], "P-256"}, maxDelta, false, patches, opaque, genOrigin(rr), "")
+			typ := ""
+			if (ri+di)%3 == 2 {
+				typ = fmt.Sprintf("t%d", di) // optional suffix-data type: part of the DID suffix
+				c.Count("creates_with_suffix_data_type")
+			}
+			d, b, err = NewCDid(rr.Split("did"), ref.SHA256, []string{ref.KeyTypes[(ri+di)%5], "P-256"}, maxDelta, false, patches, opaque, genOrigin(rr), typ)
 			if d != nil && di%2 == 1 {
 				d.ReuseSigners = true
 			}
